@@ -196,7 +196,8 @@ EvalSteps(d, env, S, steps, i, ctx) ==
       IF i = Len(steps) \/ IsErr(r) THEN r
       ELSE IF r.t = "ns" THEN EvalSteps(d, env, r.v, steps, i + 1, ctx) ELSE Err("illtyped")
     ELSE LET rs == {StepFrom(d, env, n, st) : n \in S} IN
-      IF AnyErr(rs) THEN PickErr(rs)
+      IF S = {} /\ ~Bound(env, TestPrefix(st.test)) THEN Err("illtyped")   \* never evaluated: unconstrained
+      ELSE IF AnyErr(rs) THEN PickErr(rs)
       ELSE EvalSteps(d, env, UNION {r.v : r \in rs}, steps, i + 1, ctx)
 
 \* first node of the context in document order, as a value
